@@ -5,6 +5,11 @@
 //!   page  sortmode kinds minIon [nB B…] [npep (mass seqhex)…] [nq query…]  -> db-export + results | panic
 //!   dbinv (same request format; used with nq = 0 and larger databases)
 //!
+//!   pageseq (same request format; all queries share preMass / preTol / fragTol): ONE `IndexedQuery` per B
+//!         (`db.query(..)` once), then `page_search(fragMz, charge)` for every query IN REQUEST ORDER through that
+//!         same object; per lookup the reply carries the window, the result through the shared object and the
+//!         result of the same lookup through a FRESH `db.query(..)`:  fragLo fragHi preLo preHi [cnt pairs] [cnt pairs]
+//!
 //!   query     = ptk plo phi  ftk flo fhi  preMass fragMz charge      (kind 0 = ppm, 1 = Da, 2 = Pct)
 //!   db-export = [npep mass…] [nion (pep mz)…]  then per B: [nfrag (pep mz)…] [nmin minv…]  then per query:
 //!               fragLo fragHi preLo preHi [cnt (pep mz)…]            (pairs sorted by (pep, mz bits))
@@ -36,7 +41,7 @@ use sage_core::mass::{monoisotopic, Tolerance, H2O};
 use sage_core::peptide::Peptide;
 use std::sync::Arc;
 
-pub const OPS: &[&str] = &["bss", "page", "dbinv"];
+pub const OPS: &[&str] = &["bss", "page", "dbinv", "pageseq"];
 pub const INFO: Info = Info {
     rule: "bss: ALL sorted arrays up to length 5 (thorough 7) over 4 (5) keys x all bounds on the half-step grid \
            (incl. lo > hi), plus random sorted arrays up to 300 (thorough: every 40th up to 3000) elements on a coarse grid (runs of equal keys) \
@@ -50,6 +55,11 @@ pub const INFO: Info = Info {
            precursor) tolerances; charge 1..4. FASTA mode (quick 60+10, thorough 500+60 cases, digests with more than 8000 fragments skipped): 1-4 (6) generated proteins (K/R-rich, shared segments, palindromes, \
            isobaric anagram peptides) through the REAL Parameters::digest with random decoys / variable M, S/T, N-term / static C \
            / missed cleavages 0-2 / max_variable_mods 1-2, then build_from_peptides per B and the same queries. \
+           pageseq (quick 160+15, thorough 2500+200 cases): ONE IndexedQuery per index (bucket sizes from {1,2,4,8} with >= 3 pages, \
+           sometimes another size), then 3-8 (3-14) peaks (stored fragment m/z, m/z divided by 2 or 3, near misses) x charges 1..=zmax looked \
+           up through that same object in scorer order (ascending peaks x charges: masses not monotone), descending, shuffled, or with \
+           repeated lookups; every answer is compared with the same lookup through a fresh query object and with the linear scan; \
+           non-trivial = a non-empty answer to a lookup made after a lookup of strictly higher mass on an index with >= 3 pages. \
            dbinv: larger databases (up to 300 / 800 peptides, at most ~200 buckets), layout only. \
            non-trivial = (bss) the window contains at least one and excludes at least one element; (page) some \
            query returns at least one but not all stored fragments; (dbinv) at least two buckets.",
@@ -352,6 +362,59 @@ pub fn exec(op: &str, t: &mut Toks) -> Option<String> {
             }
             Some(o.finish())
         }
+        "pageseq" => {
+            let (d, bs, qs) = parse(t)?;
+            let q0 = *qs.first()?;
+            let same = |a: &Tolerance, b: &Tolerance| a == b;
+            if qs.iter().any(|q| {
+                q.pre_mass.to_bits() != q0.pre_mass.to_bits() || !same(&q.pre_tol, &q0.pre_tol) || !same(&q.frag_tol, &q0.frag_tol)
+            }) {
+                return None;
+            }
+            let peps = peptides_of(&d);
+            let mut o = Out::new();
+            o.n(peps.len());
+            for p in &peps {
+                o.f32(p.monoisotopic);
+            }
+            let ions = ions_of(&d, &peps);
+            o.n(ions.len());
+            for (p, m) in &ions {
+                o.n(*p).f32(*m);
+            }
+            for b in &bs {
+                let db = build(&d, &peps, *b);
+                o.n(db.fragments.len());
+                for f in &db.fragments {
+                    o.n(f.peptide_index.0).f32(f.fragment_mz);
+                }
+                o.n(db.min_value.len());
+                for m in &db.min_value {
+                    o.f32(*m);
+                }
+                // ONE query object for the whole sequence
+                let iq = db.query(q0.pre_mass, q0.pre_tol, q0.frag_tol);
+                for q in &qs {
+                    let mut r: Vec<(u32, u32)> = iq
+                        .page_search(q.frag_mz, q.charge)
+                        .map(|f| (f.peptide_index.0, f.fragment_mz.to_bits()))
+                        .collect();
+                    r.sort();
+                    let fresh = search(&db, q);
+                    let (flo, fhi, plo, phi) = windows(q);
+                    o.f32(flo).f32(fhi).f32(plo).f32(phi);
+                    o.n(r.len());
+                    for (p, m) in r {
+                        o.n(p).n(m);
+                    }
+                    o.n(fresh.len());
+                    for (p, m) in fresh {
+                        o.n(p).n(m);
+                    }
+                }
+            }
+            Some(o.finish())
+        }
         _ => None,
     }
 }
@@ -567,6 +630,113 @@ struct QTags {
     tags: Vec<&'static str>,
 }
 
+/// a mass carried by at least two (adjacent, the list is sorted) peptides
+fn dup_mass(masses: &[f32]) -> Option<f32> {
+    masses.windows(2).find(|w| w[0] == w[1]).map(|w| w[0])
+}
+
+/// `pageseq`: one query object, a sequence of lookups in scorer order (ascending peaks x charges 1..=zmax, whose
+/// masses are NOT monotone), descending, shuffled, or with repeated lookups
+fn seq_case(rng: &mut Rng, d: &Desc, quick: bool) -> Option<Case> {
+    let peps = peptides_of(d);
+    let nfrag = ions_of(d, &peps).len();
+    if nfrag < 6 {
+        return None;
+    }
+    // multi-page indices: bucket sizes 1, 2, 4, 8 with at least 3 pages, sometimes another size
+    let mut bs: Vec<usize> = [1usize, 2, 4, 8].iter().copied().filter(|b| nfrag >= 3 * b).collect();
+    rng.shuffle(&mut bs);
+    bs.truncate(1 + rng.below(3));
+    if rng.chance(1, 3) {
+        let extra = *rng.pick(&[3usize, 5, 7, 16, nfrag.max(1), 8192]);
+        if !bs.contains(&extra) {
+            bs.push(extra);
+        }
+    }
+    let dbs: Vec<IndexedDatabase> = bs.iter().map(|b| build(d, &peps, *b)).collect();
+    let db = &dbs[0];
+    let masses: Vec<f32> = db.peptides.iter().map(|p| p.monoisotopic).collect();
+    let (pre_mass, pre_tol) = match rng.below(6) {
+        0 | 1 | 2 => (1000.0, Tolerance::Da(-1.0e6, 1.0e6)),
+        3 if dup_mass(&masses).is_some() => (dup_mass(&masses).unwrap(), Tolerance::Da(neg(width(rng)), 0.0)),
+        _ => (*rng.pick(&masses), Tolerance::Da(neg(*rng.pick(&[0.5f32, 2.5, 100.0])), *rng.pick(&[0.5f32, 2.5, 100.0]))),
+    };
+    let frag_tol = if rng.chance(1, 2) {
+        let w = *rng.pick(&[5.0f32, 10.0, 20.0, 50.0, 500.0]);
+        Tolerance::Ppm(neg(w), w)
+    } else {
+        let w = *rng.pick(&[0.005f32, 0.02, 0.1, 0.5, 1.0]);
+        Tolerance::Da(neg(w), w)
+    };
+    // peaks: stored fragment m/z (hit at charge 1), stored m/z divided by a charge (hit at that charge), some noise
+    let npeak = 3 + rng.below(if quick { 6 } else { 12 });
+    let mut peaks: Vec<f32> = (0..npeak)
+        .map(|_| {
+            let f = rng.pick(&db.fragments).fragment_mz;
+            match rng.below(5) {
+                0 => f / 2.0,
+                1 => f / 3.0,
+                2 => f + *rng.pick(&[0.001f32, -0.001, 0.3]),
+                _ => f,
+            }
+        })
+        .collect();
+    peaks.sort_by(|a, b| a.total_cmp(b));
+    let zmax = 2 + rng.below(3) as u8;
+    let mut looks: Vec<(f32, u8)> = Vec::new();
+    for p in &peaks {
+        for z in 1..=zmax {
+            looks.push((*p, z));
+        }
+    }
+    let order = rng.below(4);
+    let order_tag = match order {
+        0 => "seq:scorer-order(ascending-peaks-x-charges)",
+        1 => {
+            looks.reverse();
+            "seq:descending"
+        }
+        2 => {
+            rng.shuffle(&mut looks);
+            "seq:shuffled"
+        }
+        _ => {
+            // repeats: every lookup once more after the whole pass, plus an immediate repeat of the highest one
+            let again: Vec<(f32, u8)> = looks.iter().copied().take(6).collect();
+            if let Some(last) = looks.last().copied() {
+                looks.push(last);
+            }
+            looks.extend(again);
+            "seq:scorer-order+repeats"
+        }
+    };
+    let qs: Vec<Query> = looks
+        .iter()
+        .map(|(mz, z)| Query { pre_tol, frag_tol, pre_mass, frag_mz: *mz, charge: *z })
+        .collect();
+    // non-trivial: a non-empty answer to a lookup made AFTER a lookup of a strictly higher mass, on >= 3 pages
+    let mut hi_seen = f32::NEG_INFINITY;
+    let mut nontrivial = false;
+    for q in &qs {
+        let m = q.frag_mz * q.charge as f32;
+        if m < hi_seen && !search(db, q).is_empty() {
+            nontrivial = true;
+        }
+        hi_seen = hi_seen.max(m);
+    }
+    let multi = bs.iter().any(|b| (nfrag + b - 1) / b >= 3);
+    Some(
+        Case::new(request("pageseq", d, &bs, &qs))
+            .tag(order_tag)
+            .tag_if(d.sortmode >= 2, "db:fasta")
+            .tag_if(multi, "seq:index-has>=3-pages")
+            .tag_if(nontrivial, "seq:hit-after-higher-mass-lookup")
+            .tag_if(matches!(frag_tol, Tolerance::Ppm(..)), "tol:frag-ppm")
+            .tag_if(matches!(frag_tol, Tolerance::Da(..)), "tol:frag-da")
+            .nontrivial(nontrivial && multi),
+    )
+}
+
 fn gen_query(rng: &mut Rng, dbs: &[IndexedDatabase], tags: &mut QTags) -> Query {
     let db = &dbs[rng.below(dbs.len())];
     let masses: Vec<f32> = db.peptides.iter().map(|p| p.monoisotopic).collect();
@@ -585,6 +755,19 @@ fn gen_query(rng: &mut Rng, dbs: &[IndexedDatabase], tags: &mut QTags) -> Query 
         2 => {
             tags.tags.push("pre:inverted");
             (masses.first().copied().unwrap_or(500.0), Tolerance::Da(1.0, -1.0))
+        }
+        3 if dup_mass(&masses).is_some() => {
+            // upper (or lower) edge of the precursor window exactly on a mass shared by >= 2 peptides
+            tags.tags.push("pre:edge-equals-duplicated-mass");
+            let m = dup_mass(&masses).unwrap();
+            let ppm = rng.chance(1, 2);
+            let w = if ppm { ppm_width(rng) } else { width(rng) };
+            let (lo, hi) = match rng.below(4) {
+                0 | 1 => (neg(w), 0.0), // hi edge == duplicated mass
+                2 => (0.0, 0.0),
+                _ => (0.0, w),
+            };
+            (m, if ppm { Tolerance::Ppm(lo, hi) } else { Tolerance::Da(lo, hi) })
         }
         3 | 4 | 5 if !masses.is_empty() => {
             tags.tags.push("pre:edge-equals-stored-mass");
@@ -751,6 +934,25 @@ pub fn gen(rng: &mut Rng, tier: Tier, emit: &mut dyn FnMut(Case)) {
                 emit(fasta_case("page", rng, &d, if quick { 12 } else { 20 }, 400));
             } else {
                 emit(fasta_case("dbinv", rng, &d, 0, 200));
+            }
+        }
+    }
+    // ---------------- pageseq: sequences of lookups through ONE query object
+    let (n_seq, n_seq_fasta) = if quick { (160, 15) } else { (2500, 200) };
+    let mut made = 0;
+    let mut tries = 0;
+    while made < n_seq && tries < 20 * n_seq {
+        tries += 1;
+        let d = gen_desc(rng, if quick { 12 } else { 25 });
+        if let Some(c) = seq_case(rng, &d, quick) {
+            emit(c);
+            made += 1;
+        }
+    }
+    for _ in 0..n_seq_fasta {
+        if let Some(d) = gen_fasta_desc(rng, if quick { 3 } else { 5 }, if quick { 40 } else { 60 }) {
+            if let Some(c) = seq_case(rng, &d, quick) {
+                emit(c);
             }
         }
     }
